@@ -26,6 +26,12 @@ fn good_lines() -> Vec<String> {
     }
     // repeats of single-valued variables (last one wins) and awkward values
     v.push("COMMENT=".into());
+    v.push("COMMENT=trailing blank ".into());
+    v.push("OPSYS= ".into());
+    v.push("LICENSE=tab\t".into());
+    v.push("DEPENDS=one".into()); // an adjacent duplicate of a multi-line value
+    v.push("DESCRIPTION=".into());
+    v.push("DESCRIPTION= ".into());
     v.push("PKGNAME=other-2.0".into());
     v.push("HOMEPAGE=http://h/?a=b=c".into());
     v
@@ -217,7 +223,7 @@ fn main() {
 
     let mut alpha: Vec<String> = good_lines();
     alpha.extend(FAULT_LINES.iter().map(|s| s.to_string()));
-    let n = run.pick(2, 3);
+    let n = run.pick(3, 4);
     let missing_one = required_entry(Some(12)); // OPSYS missing
     let all_req = required_entry(None);
     let contexts: Vec<Vec<String>> = vec![vec![], missing_one, all_req];
